@@ -144,6 +144,9 @@ func pxNew(strategy, ids, base string) string {
 			case "sl":
 				ms, _ := strconv.Atoi(f[1])
 				time.Sleep(time.Duration(ms) * time.Millisecond)
+			case "ab":
+				// the backend dies here: its connection is reset, whatever was promised
+				panic(http.ErrAbortHandler)
 			}
 		}
 	}))
@@ -413,8 +416,14 @@ func pxExchange(mode, method, target, hdrs string, reqlen int, framing string, s
 	idc := func(on bool, name string) string {
 		r, hasR := resp.Header[name]
 		b, hasB := ob.hdr[name]
+		// a backend that echoes the identifier makes it appear twice on the response, with one value: the client
+		// still gets that value and no other (the property speaks of values, not of the number of header lines)
+		for len(r) > 1 && r[len(r)-1] == r[0] {
+			r = r[:len(r)-1]
+		}
 		if mode == "direct" || !on {
-			if hasR {
+			// (a backend whose script sets a header of that name itself: an ordinary response header)
+			if hasR && !strings.Contains(strings.ToLower(script), "sh:"+strings.ToLower(name)+":") {
 				return "UNEXPECTED-resp"
 			}
 			return "off"
@@ -432,7 +441,9 @@ func pxExchange(mode, method, target, hdrs string, reqlen int, framing string, s
 			return "MISSING-resp"
 		case !hasB:
 			return "MISSING-backend"
-		case strings.Join(r, ",") != strings.Join(b, ","):
+		case r[0] != b[0] || (len(b) == 1 && len(r) != 1):
+			// (an identifier header the client sent on several lines reaches the backend line by line — that is
+			// transparency —; the identifier is its first value, and that is what comes back)
 			return "MISMATCH"
 		}
 		if s := sent.Get(name); strings.TrimSpace(s) != "" {
